@@ -86,7 +86,8 @@ def swapcase_ascii(s):
 
 
 def pylit(s):
-    return '"' + s.replace('\\', '\\\\').replace('"', '\\"') + '"'
+    out = s.replace('\\', '\\\\').replace('"', '\\"')
+    return '"' + ''.join(c if ord(c) >= 32 else '\\x%02x' % ord(c) for c in out) + '"'
 
 
 # ---------------------------------------------------------------------------------------------------
@@ -225,6 +226,63 @@ def cross_eval_corpus():
     return out
 
 
+# ---- whitespace: what counts as a blank for normalized / trim / split / strip / exists ------------------
+ASCII_WS = ['\t', '\n', '\x0b', '\x0c', '\r', '\x1c', '\x1d', '\x1e', '\x1f', ' ']          # modelled (Expr.StrOps.is_space)
+UNI_WS = ['\x85', '\xa0', ' ', ' ', ' ', ' ', ' ', ' ', ' ', ' ', '　']
+NOT_WS = ['​', '﻿', '_', '\x00'[:0] + '\x7f']      # zero-width space, BOM, underscore, DEL: not whitespace
+
+
+def whitespace_corpus(chars):
+    """(name, expression, expected): the functions that ignore or strip blanks, with each blank character between /
+    around words.  Expected values by CPython's own notion of whitespace (str.isspace, = regex \\s)."""
+    out = []
+    norm = lambda s: ''.join(c for c in s.upper() if not (c.isspace() or c in "-'.*"))  # noqa: E731
+    for w in chars:
+        t, t2, pad = 'WHOLE' + w + 'FOODS', 'whole' + w + w + 'foods mkt', w + 'AMAZON' + w
+        out += [
+            ('normalized', f'normalized({pylit(t)}, "wholefoods")', norm('wholefoods') in norm(t)),
+            ('normalized', f'normalized("WHOLEFOODS MKT", {pylit(t2)})', norm(t2) in norm('WHOLEFOODS MKT')),
+            ('normalized', f'normalized({pylit(t)}, {pylit("FOODS" + w)})', norm('FOODS' + w) in norm(t)),
+            ('trim', f'trim({pylit(pad)})', pad.strip()),
+            ('strip-method', f'{pylit(pad)}.strip()', pad.strip()),
+            ('split-strip', f'split({pylit("a" + w + "-" + w + "b" + w)}, "-", 1)', ('a' + w + '-' + w + 'b' + w).split('-')[1].strip()),
+            ('exists', f'exists({pylit(w + w)})', bool((w + w).strip())),
+            ('contains-exact', f'contains({pylit(t)}, "WHOLEFOODS")', 'WHOLEFOODS' in t),
+        ]
+    return out
+
+
+# ---- txn.<name> is the transaction's own value, whatever else is called <name> ------------------------------
+PRIMS = ['description', 'amount', 'date', 'source', 'location', 'month', 'year', 'day', 'weekday']
+
+
+def hijack_env(base):
+    e = json.loads(json.dumps(base))
+    e['vars'] = dict(e.get('vars', {}), amount=enc(999), date=enc('hijacked'), description=enc('hijacked'), source=enc('hijacked'),
+                     location=enc('hijacked'), month=enc(13), year=enc(1), day=enc(99), weekday=enc(9), txn=enc('hijacked'),
+                     field=enc('hijacked'))
+    return e
+
+
+def hijack_family():
+    """txn.<primitive> (and field.<builtin>) next to a loop variable, a := target or a user variable of the same name"""
+    out = []
+    for p in PRIMS:
+        out += [('attr', 'txn', p), ('attr', 'TXN', p.upper()),
+                ('bin', '+', ('bin', '*', ('call', 'len', [('comp', '[', ('attr', 'txn', p), [(p, 'orders', [])])]), '0'), '0'),
+                ('comp', '[', ('attr', 'txn', p), [(p, 'orders', [])]),
+                ('call', 'next', [('comp', '(', ('attr', 'txn', p), [(p, 'orders', [])]), 'None']),
+                ('if', ('cmp', ('walrus', p, '"bound"'), [('==', '"bound"')]), ('attr', 'txn', p), 'None'),
+                ('comp', '[', ('attr', 'txn', p), [('r', 'orders', [('walrus', p, 'r.item')])])]
+    for p in ['description', 'amount', 'date', 'source', 'location']:
+        out += [('attr', 'field', p), ('comp', '[', ('attr', 'field', p), [(p, 'orders', [])]),
+                ('if', ('cmp', ('walrus', p, '"bound"'), [('==', '"bound"')]), ('attr', 'field', p), 'None')]
+    out += [('comp', '[', ('cmp', 'amount.amount', [('==', 'txn.amount')]), [('amount', 'orders', [])]),
+            ('comp', '[', 'amount', [('amount', 'orders', [('cmp', 'amount.amount', [('<=', 'txn.amount')])])]),
+            ('call', 'any', [('comp', '(', ('cmp', 'date.date', [('==', 'txn.date')]), [('date', 'orders', [])])])]
+    return out
+
+
 def rebinding_family():
     """multi-clause and nested comprehensions whose inner iterable is a bare name re-bound by the outer clause
     (outer loop variable over a list of lists; := in the outer clause's condition), and a name re-bound between two
@@ -351,7 +409,12 @@ TEXTS = ['UBER EATS 123', 'uber *trip', '', 'Whole-Foods Mkt', 'WHOLE FOODS', 'N
 PATS = ['uber', 'UBER', 'Uber eats', '', 'whole', 'WHOLEFOODS', 'oreillymedia', 'ach-', 'sq*', ' des:123', 'x', 'mkt', '€5', '123']
 
 
-def spec_instances(rnd, envs, n):
+def dec_j(j):
+    from expr_common import dec
+    return dec(j)
+
+
+def spec_instances(rnd, envs, n, hij=None, n_plain=None):
     """independent reading of the reference: each instance carries the expected value computed here in Python"""
     L = []
 
@@ -366,7 +429,7 @@ def spec_instances(rnd, envs, n):
     lo = lambda s: ''.join(c.lower() if c.isascii() else c for c in s)  # noqa: E731
     norm = lambda s: ''.join(c for c in up(s) if c not in " \t\n\r\f\v-'.*")  # noqa: E731
     for i in range(n):
-        ei = rnd.randrange(len(envs))
+        ei = rnd.randrange(n_plain or len(envs))
         desc = envs[ei]['txn']['description']
         t, p, p2 = rnd.choice(TEXTS), rnd.choice(PATS), rnd.choice(PATS)
         T, P, P2 = pylit(t), pylit(p), pylit(p2)
@@ -447,6 +510,19 @@ def spec_instances(rnd, envs, n):
         add('corpus-fuzzy', 0, f'fuzzy({pylit(text)}, {pylit(pat)}, {thr})', V(fuzzy_spec(text, pat, thr)))
         if thr == 0.8:
             add('corpus-fuzzy', 0, f'fuzzy({pylit(text.lower())}, {pylit(pat)})', V(fuzzy_spec(text, pat, thr)))
+    for name, expr, expected in whitespace_corpus(ASCII_WS + UNI_WS + NOT_WS):
+        add('corpus-ws-' + name, 0, expr, V(expected))
+    # txn.<name>: the transaction's value, whatever a := target or a user variable of that name holds
+    for ei in (0, 2, 4):
+        t = envs[ei]['txn']
+        mine = None if t.get('date') is None else datetime.date.fromordinal(t['date'])
+        real = {'description': t['description'], 'amount': dec_j(t['amount']), 'date': mine, 'source': t.get('source') or '',
+                'location': t.get('location') or '', 'month': mine.month if mine else 0, 'year': mine.year if mine else 0,
+                'day': mine.day if mine else 0, 'weekday': mine.weekday() if mine else 0}
+        for pnm in PRIMS:
+            add('corpus-txn-attr', ei, f'(txn.{pnm} if ({pnm} := "bound") == "bound" else None)', V(real[pnm]))
+            if hij is not None and ei in (0, 2):
+                add('corpus-txn-attr', hij + (0 if ei == 0 else 1), f'txn.{pnm}', V(real[pnm]))
     # the reference's own examples
     E0 = 0
     ref = [
@@ -591,7 +667,7 @@ def main(tier):
     if quick:
         head = [t for t in small if tree_size(t) <= 2]
         rest = [t for t in small if tree_size(t) > 2]
-        small_sel = head + rnd.sample(rest, 3000)
+        small_sel = head + rnd.sample(rest, 2000)
         corr = [((i * 5 + i // 7 + d) % nb, t) for i, t in enumerate(small_sel) for d in (0, 3)]
     else:
         corr = [(ei, t) for t in small for ei in range(nb)]
@@ -601,25 +677,30 @@ def main(tier):
     else:
         corr += [(ei, t) for t in fam for ei in (0, 1, 3, 4)]
     envs += JOIN_ENVS + CROSS_ENVS
-    j0 = len(envs) - len(JOIN_ENVS) - len(CROSS_ENVS)
-    x0 = len(envs) - len(CROSS_ENVS)
+    envs += [hijack_env(envs[0]), hijack_env(envs[2])]
+    h0 = len(envs) - 2
+    j0 = h0 - len(JOIN_ENVS) - len(CROSS_ENVS)
+    x0 = h0 - len(CROSS_ENVS)
     reb = rebinding_family()
     corr += [(j0 + d, t) for t in reb for d in range(len(JOIN_ENVS))]
     # scoping templates and := inside comprehensions: always, on every environment that has rows
     wal = G.walrus_in_comp_family()
     corr += [(ei, t) for t in G.scoping_family() + wal for ei in (0, 1, 2, 5, j0)]
+    hij = hijack_family()
+    corr += [(ei, t) for t in hij for ei in (0, 1, 5, h0, h0 + 1)]
+    corr += [(0, e) for _, e, _ in whitespace_corpus(ASCII_WS)]
     # the same text on environments whose rows / variables hold dates, raw strings, or both, in both orders
     corr += [(x0 + d, t) for t, order in cross_eval_corpus() for d in order]
     corr += [(0, e) for _, e, _ in regex_pair_corpus()] + \
             [(0, f'fuzzy({pylit(t)}, {pylit(p)}, {th})') for t, p, th in fuzzy_corpus()]
     n_exh = len(corr)
-    for i in range(3000 if quick else 25000):
+    for i in range(2000 if quick else 25000):
         corr.append((rnd.randrange(len(envs)), G.gen(rnd, 'any', rnd.choice([2, 3, 4, 5, 6]))))
     corr_jobs = [[ei, src(t)] for ei, t in corr]
 
     # ---- law / spec streams ----------------------------------------------------------------------------
     laws = law_instances(rnd, envs, 500 if quick else 4000)
-    specs, ref = spec_instances(rnd, envs, 480 if quick else 6000)
+    specs, ref = spec_instances(rnd, envs, 480 if quick else 6000, hij=h0, n_plain=j0)
     ref_envs = []
     for expr, desc, expected in ref:
         e = json.loads(json.dumps(REF_ENV))
@@ -645,6 +726,7 @@ def main(tier):
     py_jobs = [[ei, src(t)] for t in pyf for ei in ((0, 1) if quick else (0, 1, 2, 5, nb, nb + 1))]
     py_jobs += [[j0 + d, src(t)] for t in reb for d in range(len(JOIN_ENVS))]
     py_jobs += [[ei, src(t)] for t in wal for ei in (0, 1, 2, 5, j0)]
+    py_jobs += [[ei, src(t)] for t in hij[-3:-1] + [t for t in hij if t[0] == 'comp' and t[2][:2] == ('attr', 'txn')] for ei in (0, 1, 5)]
 
     all_jobs = corr_jobs + law_jobs + py_jobs
     t0 = time.time()
@@ -747,7 +829,7 @@ def main(tier):
     run.cov.update({
         'evaluations': len(corr_jobs) + len(law_jobs) + 2 * len(py_jobs),
         'distinct_nontrivial': nontrivial,
-        'rule': 'correspondence: all expressions of <= 3 nodes over a 15-leaf alphabet (incl. None) (quick: all of <= 2 nodes + 3000 sampled of 3, each on 2 boundary transactions; '
+        'rule': 'correspondence: all expressions of <= 3 nodes over a 15-leaf alphabet (incl. None) (quick: all of <= 2 nodes + 2000 sampled of 3, each on 2 boundary transactions; '
                 'thorough: all x 6 boundary transactions), comprehension/scoping templates, random typed trees of depth <= 6, on boundary '
                 'transactions (zero/negative/large amount, month/year ends, leap day, empty description, missing date, custom fields, '
                 'source) x 0-2 supplemental tables of 0-3 rows and random environments; non-trivial = distinct expression texts evaluated '
